@@ -79,7 +79,7 @@ var PANFilter = func(in string, data field.Field) string {
 
 var Track1Filter = func(in string, data field.Field) string {
 	track := field.Track1{}
-	if err := newTrackData(data, &track); err != nil {
+	if err := newTrackData(in, &track); err != nil {
 		return in
 	}
 
@@ -89,7 +89,7 @@ var Track1Filter = func(in string, data field.Field) string {
 
 var Track2Filter = func(in string, data field.Field) string {
 	track := field.Track2{}
-	if err := newTrackData(data, &track); err != nil {
+	if err := newTrackData(in, &track); err != nil {
 		return in
 	}
 
@@ -99,7 +99,7 @@ var Track2Filter = func(in string, data field.Field) string {
 
 var Track3Filter = func(in string, data field.Field) string {
 	track := field.Track3{}
-	if err := newTrackData(data, &track); err != nil {
+	if err := newTrackData(in, &track); err != nil {
 		return in
 	}
 	track.PrimaryAccountNumber = PANFilter(track.PrimaryAccountNumber, nil)
@@ -107,12 +107,12 @@ var Track3Filter = func(in string, data field.Field) string {
 	return getTrackDataString(in, &track)
 }
 
-func newTrackData(data, track field.Field) error {
-	if raw, err := data.Pack(); err == nil {
-		track.SetSpec(data.Spec())
-		if _, err := track.Unpack(raw); err != nil {
-			return ErrCreatingNewTrackData
-		}
+// newTrackData parses the track text that is about to be printed. It does not
+// go through the field's wire form: whether the field can be packed and unpacked
+// by its own spec must not decide whether the account number gets masked.
+func newTrackData(in string, track field.Field) error {
+	if err := track.SetBytes([]byte(in)); err != nil {
+		return ErrCreatingNewTrackData
 	}
 
 	return nil
